@@ -281,6 +281,7 @@ TUPLE_UFUNCS = {"modf": (np.modf, 1), "divmod": (np.divmod, 2)}  # several outpu
 
 KINDS2 = [("fe", "fe"), ("fe", "fe"), ("fe", "fe"), ("fe", "arr"), ("arr", "fe"), ("fe", "sc"), ("sc", "fe")]
 LEADS = ["full", "full", "full", "one", "row", "col"]
+COMPLEMENT = dict(row="col", col="row")
 
 
 @st.composite
@@ -299,6 +300,7 @@ def elementwise_cases(draw):
     specs = []
     other_lead = draw(st.sampled_from(LEADS))
     which = draw(st.integers(0, 1))
+    cross = draw(st.booleans())
     for i, kind in enumerate((ka, kb)):
         if kind == "sc":
             specs.append(sc_spec(draw(st.integers(-8, 8))))
@@ -309,6 +311,8 @@ def elementwise_cases(draw):
             specs.append(arr_spec(t))
         else:
             lead = other_lead if (ka == kb == "fe" and i == which) else "full"
+            if ka == kb == "fe" and i != which and other_lead in COMPLEMENT and cross:
+                lead = COMPLEMENT[other_lead]  # per-element field with a per-Gauss-point field: no operand on the full (Ne, nPg)
             specs.append(fe_spec(t, lead))
     form = "np" if op == "divmod" or BINARY[op][0] is None else draw(st.sampled_from(["op", "op", "np"]))
     return dict(op=op, form=form, Ne=Ne, nPg=nPg, a=specs[0], b=specs[1], k=draw(SEED))
@@ -419,8 +423,9 @@ def contract_cases(draw):
         ka, kb = draw(st.sampled_from([("fe", "fe"), ("fe", "fe"), ("fe", "fe"), ("fe", "arr"), ("arr", "fe")]))
         ra = draw(st.sampled_from([1, 1, 2, 2, 2, 0, 3]))
         rb = ra if draw(st.integers(0, 5)) > 0 else draw(st.sampled_from([0, 1, 2]))
-    lead_other = draw(st.sampled_from(["full", "full", "full", "one", "one", "row"]))
+    lead_other = draw(st.sampled_from(["full", "full", "full", "one", "one", "row", "col"]))
     which = draw(st.integers(0, 1))
+    cross = draw(st.booleans())
     specs = []
     for i, (kind, r) in enumerate(((ka, ra), (kb, rb))):
         if kind == "sc":
@@ -428,8 +433,10 @@ def contract_cases(draw):
         elif kind == "arr":
             specs.append(arr_spec(tshape(draw, r, d, p_other=8)))
         else:
-            specs.append(fe_spec(tshape(draw, r, d, p_other=8),
-                                 lead_other if (ka == kb == "fe" and i == which) else "full"))
+            lead = lead_other if (ka == kb == "fe" and i == which) else "full"
+            if ka == kb == "fe" and i != which and lead_other in COMPLEMENT and cross:
+                lead = COMPLEMENT[lead_other]  # (Ne, 1, ...) with (1, nPg, ...): no operand on the full (Ne, nPg)
+            specs.append(fe_spec(tshape(draw, r, d, p_other=8), lead))
     return dict(op=op, Ne=Ne, nPg=nPg, a=specs[0], b=specs[1], k=draw(SEED))
 
 
